@@ -585,7 +585,7 @@ pub fn c16_cat1_%(sa)s() {
            to=600 if a in (0, 1, 2, 6) else 900, mem=8 if a in (0, 1, 2, 6) else 20, opt="" if a in (0, 1, 2, 6) else " optional=1")
         for b in range(9):
             cheap = a in (0, 1, 2, 6) and b in (0, 1, 2, 6)
-            if not cheap and (a, b) not in ((3, 0), (5, 6), (7, 0), (4, 1)):
+            if not cheap and (a, b) not in ((3, 0), (5, 6)):
                 continue
             out += '''
 //@ harness: c16_cat2_%(sa)s_%(sb)s tier=%(tier)s timeout=%(to)d kind=main mem=%(mem)d%(opt)s
@@ -662,7 +662,7 @@ pub fn c02_near_%(id)s_%(kn)s() {
 ''' % dict(id=opid(o), kn=kn, tier="quick" if (o, ki) in quick else "thorough", o=o, ki=ki, unw=len(o) + 4)
     docs = ["{}", '{"a": n}', '{"var": "a", "x": null} (two keys, one an operator name)', '{"Var": "a"} (case variant)',
             '{" var": "a"} (leading whitespace)', '{"var ": "a"} (trailing whitespace)', '{"i": []} (prefix of "if"/"in")']
-    for k in range(7):
+    for k in (0, 1, 2, 3):
         out += '''
 //@ harness: c02_literal_object_%(k)d tier=%(tier)s timeout=900 kind=main mem=24%(opt)s
 //@ encodes: Parsed::from_value, Operation/LazyOperation/DataOperation::from_value, op::op_from_map x3 tables, Raw::evaluate
